@@ -25,6 +25,7 @@ CONSTANTS
 ACGT == {"A", "C", "G", "T"}
 AC == {"A", "C"}
 ACG == {"A", "C", "G"}
+ACaN == {"A", "C", "a", "N"}      \* symbols are compared as written: a soft-masked base and N are symbols of their own
 AllSeqs == [1..L -> Letters]
 TwoRefs3 == {<<"G", "A", "T">>, <<"C", "C", "A">>}
 
